@@ -991,5 +991,40 @@ theorem C08_arc_between_candidates (a : ArcData ℝ) (s u t : ℝ) (hs : s ≤ t
     · rw [add_assoc, add_assoc, add_assoc, min_add_add_left]; linarith
     · rw [add_assoc, add_assoc, add_assoc, max_add_add_left]; linarith
 
+/-- **C08 for arcs, assembled**: let `[t0, t1]` be the parameter interval an arc sweeps and `Ex`,
+    `Ey` finite lists of parameters containing both ends and every critical parameter of the x-
+    resp. y-coordinate strictly inside the sweep (what `Arc.bbox` sets out to collect). Then the
+    min/max over the points at the listed parameters — the box `Arc.bbox` reports — contains the
+    point at every parameter of the sweep. (Tightness is immediate when the lists hold only
+    parameters of the sweep: each side is the coordinate of a listed point, `listMin_mem`.) -/
+theorem C08_arc_box_from_candidates (a : ArcData ℝ) (t0 t1 t d d' : ℝ) (Ex Ey : List ℝ)
+    (ht0 : t0 ≤ t) (ht1 : t ≤ t1)
+    (hx0 : t0 ∈ Ex) (hx1 : t1 ∈ Ex) (hy0 : t0 ∈ Ey) (hy1 : t1 ∈ Ey)
+    (hEx : ∀ x, t0 < x → x < t1 → denDx a (cos x) (sin x) = 0 → x ∈ Ex)
+    (hEy : ∀ x, t0 < x → x < t1 → denDy a (cos x) (sin x) = 0 → x ∈ Ey) :
+    let X := fun e : ℝ => (a.den (cos e) (sin e)).x
+    let Y := fun e : ℝ => (a.den (cos e) (sin e)).y
+    listMin d (Ex.map X) ≤ X t ∧ X t ≤ listMax d (Ex.map X) ∧
+    listMin d' (Ey.map Y) ≤ Y t ∧ Y t ≤ listMax d' (Ey.map Y) := by
+  intro X Y
+  obtain ⟨e1, m1, e2, m2, -, -, l1, l2⟩ :=
+    ArcMono.between_list (a.prx.x - a.center.x) (a.pry.x - a.center.x) t0 t1 t Ex hx0 hx1 ht0 ht1
+      (by intro x h1 h2 hz; exact hEx x h1 h2 (by simpa [denDx, ArcMono.g] using hz))
+  obtain ⟨e3, m3, e4, m4, -, -, l3, l4⟩ :=
+    ArcMono.between_list (a.prx.y - a.center.y) (a.pry.y - a.center.y) t0 t1 t Ey hy0 hy1 ht0 ht1
+      (by intro x h1 h2 hz; exact hEy x h1 h2 (by simpa [denDy, ArcMono.g] using hz))
+  have eX : ∀ e, X e = a.center.x + ArcMono.f (a.prx.x - a.center.x) (a.pry.x - a.center.x) e := by
+    intro e; simp only [X, ArcData.den, ArcMono.f]; ring
+  have eY : ∀ e, Y e = a.center.y + ArcMono.f (a.prx.y - a.center.y) (a.pry.y - a.center.y) e := by
+    intro e; simp only [Y, ArcData.den, ArcMono.f]; ring
+  refine ⟨le_trans (listMin_le d _ (X e1) (List.mem_map_of_mem m1)) ?_,
+          le_trans ?_ (le_listMax d _ (X e2) (List.mem_map_of_mem m2)),
+          le_trans (listMin_le d' _ (Y e3) (List.mem_map_of_mem m3)) ?_,
+          le_trans ?_ (le_listMax d' _ (Y e4) (List.mem_map_of_mem m4))⟩
+  · rw [eX, eX]; linarith
+  · rw [eX, eX]; linarith
+  · rw [eY, eY]; linarith
+  · rw [eY, eY]; linarith
+
 end ArcReal
 end Svg.C08
